@@ -25,6 +25,7 @@ import (
 	"flag"
 	"fmt"
 	"math/big"
+	"math/bits"
 	"os"
 	"path/filepath"
 	"reflect"
@@ -32,6 +33,7 @@ import (
 	"runtime"
 	"runtime/debug"
 	"sort"
+	"strconv"
 	"strings"
 	"sync"
 	"time"
@@ -78,6 +80,9 @@ type Case struct {
 	Admitted  *bool           `json:"admitted,omitempty"`
 	Accepted  *bool           `json:"accepted,omitempty"` // random stream: the validator found no error
 	Why       string          `json:"why,omitempty"`      // random stream: first validation error (diagnostic only)
+	Tried     int             `json:"tried,omitempty"`    // adversarial values: objects run (value x flag setting)
+	AccRuns   int             `json:"acc_runs,omitempty"` // adversarial values: of those, accepted by the validator and run through store/extend/generate
+	Values    int             `json:"values,omitempty"`   // adversarial values: distinct values of the grammar put on this field
 	Error     string          `json:"error,omitempty"`
 }
 
@@ -572,6 +577,8 @@ func runShape(p pool, j job, thorough bool) Case {
 		switch j.fam {
 		case "ing":
 			cs = runIngShape(p, j.id, j.shape, thorough)
+		case "adv":
+			cs = runAdvJob(j.id, j.shape, thorough)
 		default:
 			cs = runCRDShape(p, j.fam, j.id, j.shape, thorough)
 		}
@@ -622,6 +629,33 @@ func main() {
 			for _, d := range allCRDDescrs(fam) {
 				jobs = append(jobs, job{fam, len(jobs), d})
 			}
+		}
+	}
+	if *only == "advbases" { // diagnostic: which rich bases does the validator accept under which flags
+		for _, b := range advBaseNames {
+			for _, f := range advFlagSettings() {
+				c := newCtl(f)
+				var err error
+				switch x := deepCopy(advBase(b)).(type) {
+				case *conf_v1.VirtualServer:
+					err = c.VSValidator().ValidateVirtualServer(x)
+				case *conf_v1.VirtualServerRoute:
+					err = c.VSValidator().ValidateVirtualServerRoute(x)
+				case *conf_v1.TransportServer:
+					err = c.TSValidator().ValidateTransportServer(x)
+				case *conf_v1.Policy:
+					err = c.ValidatePolicy(x)
+				case *conf_v1.GlobalConfiguration:
+					err = c.GCValidator().ValidateGlobalConfiguration(x)
+				}
+				fmt.Fprintf(os.Stderr, "%s flags=%d admitted=%v err=%v\n", b, f, admitted(advBase(b)), err)
+			}
+		}
+		return
+	}
+	if want("adv") {
+		for _, d := range allAdvJobs() {
+			jobs = append(jobs, job{"adv", len(jobs), d})
 		}
 	}
 	if *only == "" || want("inv") {
@@ -2013,12 +2047,23 @@ func pickOf[T any](g *gen, pool []T) T {
 	return pool[0]
 }
 
+// pickNear: like pickOf, but half of the noisy picks are near-misses of the pool's valid value
+func pickNear(g *gen, pool []string) string {
+	if g.noisy() {
+		if g.r.Bool() && pool[0] != "" {
+			return vh.Pick(g.r, nearMisses(pool[0], true))
+		}
+		return vh.Pick(g.r, pool)
+	}
+	return pool[0]
+}
+
 func pickStr(g *gen, parent, name string) string {
 	if p, ok := strPool[parent+"."+name]; ok {
-		return pickOf(g, p)
+		return pickNear(g, p)
 	}
 	if p, ok := strPool[name]; ok {
-		return pickOf(g, p)
+		return pickNear(g, p)
 	}
 	if isTimeField(name) {
 		return pickOf(g, []string{"", "5s", "1m", "bogus", "0"})
@@ -2353,7 +2398,7 @@ func randomIngress(r *vh.Rng) *networking.Ingress {
 		{"nginx.org/limit-req-burst", "5"}, {"nginx.org/limit-req-scale", "true"}, {"nginx.org/http2", "true"},
 		{"appprotect.f5.com/app-protect-enable", "True"}, {"appprotect.f5.com/app-protect-policy", "default/dataguard"},
 		{"appprotect.f5.com/app-protect-security-log-enable", "True"}, {"appprotect.f5.com/app-protect-security-log", "default/logconf"},
-		{"appprotectdos.f5.com/app-protect-dos-resource", "default/dos"}, {"nginx.org/proxy-pass-headers", "x"}, {"nginx.org/ssl-redirect", "false"},
+		{"appprotectdos.f5.com/app-protect-dos-resource", "default/dos"}, {"appprotect.f5.com/app-protect-security-log-destination", "syslog:server=127.0.0.1:514"}, {"nginx.org/proxy-pass-headers", "x"}, {"nginx.org/ssl-redirect", "false"},
 	}
 	na := r.Intn(5)
 	if r.Chance(1, 3) {
@@ -2363,7 +2408,11 @@ func randomIngress(r *vh.Rng) *networking.Ingress {
 		ing.Annotations = map[string]string{}
 		for i := 0; i < na; i++ {
 			a := vh.Pick(r, annPool)
-			ing.Annotations[a[0]] = a[1]
+			v := a[1]
+			if r.Chance(1, 5) {
+				v = vh.Pick(r, nearMisses(v, true))
+			}
+			ing.Annotations[a[0]] = v
 		}
 	}
 	if r.Chance(1, 6) {
@@ -2889,4 +2938,616 @@ func ptrInventory() []string {
 	}
 	sort.Strings(out)
 	return out
+}
+
+// ---------------------------------------------------------------- S: adversarial values (near-miss grammar)
+
+// String-valued fields that are parsed after (or while) being validated -- log destinations,
+// host:port addresses, sizes, times, URLs, header lists, comma/space separated lists, key=value
+// annotation values -- get values from a small grammar of near-misses of a valid value:
+// valid prefix + junk suffix, junk prefix, a separator removed / doubled / alone, a part emptied,
+// truncation at each separator, only separators, numbers out of range, very long, non-ASCII,
+// control characters, quotes, braces, backslashes.  Systematic: every annotation of the
+// validator's table and every string leaf of rich valid custom resources, times every value of
+// the grammar, with Plus / App Protect / DoS on and off and the remaining flags all on and all off.
+// Every such object is API-admissible (annotation values and these CRD strings are unconstrained;
+// CRD objects are checked against the published schema and skipped when a pattern rejects them).
+// A panic anywhere in validate -> store -> createExtendedResources -> generate is the violation.
+
+// values that are near-misses of no particular base: only separators, empty parts, numbers out
+// of range, non-ASCII, fragments of the key=value and URL syntaxes
+var advFixed = []string{":", "::", ":::", "=", "==", ",", ",,", ";", "/", "//", "-", ".", "..", "$", "${", "${}", "\\", "\"", "0", "-1", "1.5", "1e9",
+	"99999999999999999999", "65536", "日本語", "x", "true", "false", "True", "on", "max", "syslog:server=", "syslog:server=:", "stderr:a:1", "a:b:c", "a=b", "a=b=c", "=a", "a=",
+	"http://", "https://[", "http://h:x/", "serviceName=", "serviceName= rewrite=", "serviceName=a rewrite", "rewrite=/x", "~", "~ ", "~*", "= ", "!", "! ", "*", "*."}
+
+const advSeps = ":=,/ .-;$"
+
+func nearMisses(v string, withFixed bool) []string {
+	seen := map[string]bool{}
+	var out []string
+	add := func(x string) {
+		if !seen[x] && x != v {
+			seen[x] = true
+			out = append(out, x)
+		}
+	}
+	for _, j := range []string{"x", " x", "x ", ";", "}", "{", "$", "\\", "\"", "'", "\n", "\t", ":", "=", ",", "/", ".", "-", "%", "#", "0", ":0", ":x", "=x", ",x", "é", " ", "\x00"} {
+		add(v + j)
+		add(j + v)
+	}
+	add("")
+	add(" ")
+	if withFixed {
+		for _, x := range advFixed {
+			add(x)
+		}
+	}
+	add(v + v)
+	add(v + "," + v)
+	add(v + " " + v)
+	add(v + ";" + v)
+	add(strings.ToUpper(v))
+	add(v + strings.Repeat("a", 5000))
+	add(strings.Repeat(v+",", 400))
+	for i := 0; i < len(v); i++ {
+		if strings.IndexByte(advSeps, v[i]) < 0 {
+			continue
+		}
+		add(v[:i] + v[i+1:])              // separator removed
+		add(v[:i] + string(v[i]) + v[i:]) // separator doubled
+		add(v[:i])                        // truncated before it
+		add(v[:i+1])                      // truncated after it
+		add(v[i:])                        // only the rest, with the separator
+		add(v[i+1:])                      // only the rest
+		add(v[:i+1] + "x")                // part after it replaced
+		add(v[:i] + "x" + v[i+1:])        // separator replaced
+	}
+	if len(v) > 1 {
+		add(v[:len(v)-1])
+		add(v[1:])
+	}
+	return out
+}
+
+// valid values of the annotations (the bases of the near-misses); every annotation also gets
+// the generic bases
+var advAnnBases = map[string][]string{
+	"nginx.org/lb-method":                                    {"round_robin", "hash $request_uri consistent", "least_time header"},
+	"nginx.com/slow-start":                                   {"10s"},
+	"nginx.com/health-checks-mandatory-queue":                {"10"},
+	"nginx.org/server-tokens":                                {"off", "custom"},
+	"nginx.org/server-snippets":                              {"add_header X-A b;"},
+	"nginx.org/location-snippets":                            {"add_header X-A b;"},
+	"nginx.org/proxy-connect-timeout":                        {"10s"},
+	"nginx.org/proxy-hide-headers":                           {"X-A,X-B"},
+	"nginx.org/proxy-pass-headers":                           {"X-A,X-B"},
+	"nginx.org/proxy-set-headers":                            {"X-A: b,X-C", "X-A"},
+	"nginx.org/client-max-body-size":                         {"1m"},
+	"nginx.org/hsts-max-age":                                 {"100"},
+	"nginx.org/proxy-buffers":                                {"4 8k"},
+	"nginx.org/proxy-buffer-size":                            {"8k"},
+	"nginx.org/proxy-max-temp-file-size":                     {"1024m"},
+	"nginx.org/upstream-zone-size":                           {"512k"},
+	"nginx.org/basic-auth-secret":                            {"htpasswd-secret"},
+	"nginx.org/basic-auth-realm":                             {"realm"},
+	"nginx.com/jwt-realm":                                    {"realm"},
+	"nginx.com/jwt-key":                                      {"jwk-secret"},
+	"nginx.com/jwt-token":                                    {"$cookie_auth_token"},
+	"nginx.com/jwt-login-url":                                {"https://login.example.com/x"},
+	"nginx.org/listen-ports":                                 {"8080,9090"},
+	"nginx.org/listen-ports-ssl":                             {"8443,9443"},
+	"nginx.org/fail-timeout":                                 {"5s"},
+	"appprotect.f5.com/app-protect-enable":                   {"True"},
+	"appprotect.f5.com/app-protect-security-log-enable":      {"True"},
+	"appprotect.f5.com/app-protect-policy":                   {"default/dataguard"},
+	"appprotect.f5.com/app-protect-security-log":             {"default/logconf", "default/logconf,default/logconf2"},
+	"appprotect.f5.com/app-protect-security-log-destination": {"syslog:server=127.0.0.1:514", "stderr", "/var/log/ap.log", "syslog:server=localhost:514,stderr", "syslog:server=syslog.example.com:514"},
+	"appprotectdos.f5.com/app-protect-dos-resource":          {"default/dos"},
+	"nginx.org/websocket-services":                           {"svc-a,svc-b"},
+	"nginx.org/ssl-services":                                 {"svc-a"},
+	"nginx.org/grpc-services":                                {"svc-a"},
+	"nginx.org/rewrites":                                     {"serviceName=svc-a rewrite=/x;serviceName=svc-b rewrite=/y"},
+	"nginx.com/sticky-cookie-services":                       {"serviceName=svc-a srv_id expires=1h path=/p;serviceName=svc-b c"},
+	"nginx.org/path-regex":                                   {"case_sensitive", "exact"},
+	"nginx.org/limit-req-rate":                               {"10r/s"},
+	"nginx.org/limit-req-key":                                {"${binary_remote_addr}"},
+	"nginx.org/limit-req-zone-size":                          {"10m"},
+	"nginx.org/limit-req-log-level":                          {"error"},
+	"nginx.org/limit-req-reject-code":                        {"429"},
+	"nginx.org/mergeable-ingress-type":                       {"master", "minion"},
+}
+
+var advGenericBases = []string{"true", "10", "5s"}
+
+// annotations that must be present for another one to be looked at
+var advCompanions = map[string]map[string]string{
+	"appprotect.f5.com/app-protect-security-log":             {"appprotect.f5.com/app-protect-security-log-enable": "True", "appprotect.f5.com/app-protect-enable": "True"},
+	"appprotect.f5.com/app-protect-security-log-destination": {"appprotect.f5.com/app-protect-security-log-enable": "True", "appprotect.f5.com/app-protect-enable": "True", "appprotect.f5.com/app-protect-security-log": "default/logconf"},
+	"appprotect.f5.com/app-protect-policy":                   {"appprotect.f5.com/app-protect-enable": "True"},
+	"nginx.com/jwt-realm":                                    {"nginx.com/jwt-key": "jwk-secret"},
+	"nginx.com/jwt-token":                                    {"nginx.com/jwt-key": "jwk-secret"},
+	"nginx.com/jwt-login-url":                                {"nginx.com/jwt-key": "jwk-secret"},
+	"nginx.org/basic-auth-realm":                             {"nginx.org/basic-auth-secret": "htpasswd-secret"},
+	"nginx.com/health-checks-mandatory":                      {"nginx.com/health-checks": "true"},
+	"nginx.com/health-checks-mandatory-queue":                {"nginx.com/health-checks": "true", "nginx.com/health-checks-mandatory": "true"},
+	"nginx.org/hsts-max-age":                                 {"nginx.org/hsts": "true"},
+	"nginx.org/hsts-include-subdomains":                      {"nginx.org/hsts": "true"},
+	"nginx.org/hsts-behind-proxy":                            {"nginx.org/hsts": "true"},
+	"nginx.org/limit-req-key":                                {"nginx.org/limit-req-rate": "10r/s", "nginx.org/limit-req-zone-size": "10m"},
+	"nginx.org/limit-req-zone-size":                          {"nginx.org/limit-req-rate": "10r/s", "nginx.org/limit-req-key": "${binary_remote_addr}"},
+	"nginx.org/limit-req-rate":                               {"nginx.org/limit-req-key": "${binary_remote_addr}", "nginx.org/limit-req-zone-size": "10m"},
+	"nginx.org/limit-req-delay":                              {"nginx.org/limit-req-rate": "10r/s", "nginx.org/limit-req-key": "${binary_remote_addr}", "nginx.org/limit-req-zone-size": "10m"},
+	"nginx.org/limit-req-burst":                              {"nginx.org/limit-req-rate": "10r/s", "nginx.org/limit-req-key": "${binary_remote_addr}", "nginx.org/limit-req-zone-size": "10m"},
+	"nginx.org/limit-req-no-delay":                           {"nginx.org/limit-req-rate": "10r/s", "nginx.org/limit-req-key": "${binary_remote_addr}", "nginx.org/limit-req-zone-size": "10m"},
+	"nginx.org/limit-req-dry-run":                            {"nginx.org/limit-req-rate": "10r/s", "nginx.org/limit-req-key": "${binary_remote_addr}", "nginx.org/limit-req-zone-size": "10m"},
+	"nginx.org/limit-req-log-level":                          {"nginx.org/limit-req-rate": "10r/s", "nginx.org/limit-req-key": "${binary_remote_addr}", "nginx.org/limit-req-zone-size": "10m"},
+	"nginx.org/limit-req-reject-code":                        {"nginx.org/limit-req-rate": "10r/s", "nginx.org/limit-req-key": "${binary_remote_addr}", "nginx.org/limit-req-zone-size": "10m"},
+	"nginx.org/limit-req-scale":                              {"nginx.org/limit-req-rate": "10r/s", "nginx.org/limit-req-key": "${binary_remote_addr}", "nginx.org/limit-req-zone-size": "10m"},
+	"nginx.org/grpc-services":                                {"nginx.org/http2": "true"},
+}
+
+// the flag settings of the adversarial family: Plus / App Protect / DoS on and off, the
+// remaining four flags all off and all on
+func advFlagSettings() []int {
+	var out []int
+	for _, rest := range []int{0, fInternal | fSnippets | fCertMgr | fTLSPass} {
+		for i := 0; i < 8; i++ {
+			f := rest
+			if i&1 != 0 {
+				f |= fPlus
+			}
+			if i&2 != 0 {
+				f |= fAppProtect
+			}
+			if i&4 != 0 {
+				f |= fDos
+			}
+			out = append(out, f)
+		}
+	}
+	return out
+}
+
+func advIngress(name string, ann map[string]string, created int) *networking.Ingress {
+	cls := "nginx"
+	pre := networking.PathTypePrefix
+	svc := func(n string) networking.IngressBackend {
+		return networking.IngressBackend{Service: &networking.IngressServiceBackend{Name: n, Port: networking.ServiceBackendPort{Number: 80}}}
+	}
+	m := meta(name, created)
+	m.Annotations = ann
+	return &networking.Ingress{ObjectMeta: m, Spec: networking.IngressSpec{IngressClassName: &cls,
+		TLS: []networking.IngressTLS{{Hosts: []string{host1}, SecretName: "tls-secret"}},
+		Rules: []networking.IngressRule{{Host: host1, IngressRuleValue: networking.IngressRuleValue{HTTP: &networking.HTTPIngressRuleValue{
+			Paths: []networking.HTTPIngressPath{{Path: "/p", PathType: &pre, Backend: svc("svc-a")}, {Path: "/q", PathType: &pre, Backend: svc("svc-b")}}}}}}}}
+}
+
+// advJobs: "ann|<annotation>|<base>", "crd|<base object>|<leaf index>"
+func allAdvJobs() []string {
+	var out []string
+	for _, n := range k8s.VerifC17AnnotationNames() {
+		bases := append(append([]string{}, advAnnBases[n]...), advGenericBases...)
+		for i := range bases {
+			out = append(out, fmt.Sprintf("ann|%s|%d", n, i))
+		}
+	}
+	for _, b := range advBaseNames {
+		n := countStringLeaves(advBase(b))
+		for i := 0; i < n; i++ {
+			out = append(out, fmt.Sprintf("crd|%s|%d", b, i))
+		}
+	}
+	return out
+}
+
+func runAdvJob(id int, d string, thorough bool) Case {
+	cs := Case{Fam: "adv", ID: id, Shape: d}
+	parts := strings.SplitN(d, "|", 3)
+	if len(parts) != 3 {
+		cs.Error = "bad adversarial job " + d
+		return cs
+	}
+	idx, err := strconv.Atoi(parts[2])
+	if err != nil {
+		cs.Error = "bad adversarial job " + d
+		return cs
+	}
+	flags := advFlagSettings()
+	validators := map[int]*k8s.VerifC17{}
+	ctl := func(f int) *k8s.VerifC17 {
+		if c, ok := validators[f]; ok {
+			return c
+		}
+		c := newCtl(f)
+		validators[f] = c
+		return c
+	}
+	note := func(f int, stage, val, msg, site string, obj interface{}) {
+		if len(val) > 120 {
+			val = val[:60] + fmt.Sprintf("...(%d bytes)", len(val))
+		}
+		if len(cs.Panics) < 8 {
+			cs.Panics = append(cs.Panics, PanicInfo{Combo: fmt.Sprintf("flags=%d value=%q", f, val), Stage: stage, Msg: msg, Site: site})
+		}
+		if cs.Object == nil {
+			cs.Object, _ = json.Marshal(obj)
+		}
+	}
+	switch parts[0] {
+	case "ann":
+		name := parts[1]
+		bases := append(append([]string{}, advAnnBases[name]...), advGenericBases...)
+		if idx >= len(bases) {
+			cs.Error = "bad adversarial job " + d
+			return cs
+		}
+		vals := append([]string{bases[idx]}, nearMisses(bases[idx], idx == 0)...)
+		cs.Values = len(vals)
+		for _, v := range vals {
+			ann := map[string]string{name: v}
+			for k, x := range advCompanions[name] {
+				ann[k] = x
+			}
+			ing := advIngress("z-new", ann, 9)
+			var accepting []int
+			for _, f := range flags {
+				cs.Tried++
+				var nerr int
+				if m, s := guard(func() { nerr = ctl(f).ValidateIngress(ing.DeepCopy()) }); m != "" {
+					note(f, "validate", v, m, s, ing)
+					continue
+				}
+				if nerr == 0 {
+					accepting = append(accepting, f)
+				}
+			}
+			for _, f := range pickSettings(accepting, thorough) {
+				cs.AccRuns++
+				var ps []PanicInfo
+				runObject("Ingress", ing, f, 0, &ps)
+				// the same annotation on a master with a minion, and on a minion under a master
+				if name != "nginx.org/mergeable-ingress-type" {
+					for _, onMaster := range []bool{true, false} {
+						ma := map[string]string{"nginx.org/mergeable-ingress-type": "master"}
+						mi := map[string]string{"nginx.org/mergeable-ingress-type": "minion"}
+						t := mi
+						if onMaster {
+							t = ma
+						}
+						for k, x := range ann {
+							t[k] = x
+						}
+						master := advIngress("a-master", ma, 1)
+						master.Spec.Rules[0].HTTP = nil
+						minion := advIngress("a-minion", mi, 2)
+						minion.Spec.TLS = nil
+						if m, s := guard(func() {
+							c := newCtl(f)
+							fillSecrets(c)
+							ch, pr := c.Configuration().AddOrUpdateIngress(master)
+							c.ProcessChanges(ch)
+							c.ProcessProblems(pr)
+							ch, pr = c.Configuration().AddOrUpdateIngress(minion)
+							c.ProcessChanges(ch)
+							c.ProcessProblems(pr)
+							c.ExtendAll()
+						}); m != "" {
+							ps = append(ps, PanicInfo{Stage: "mergeable", Msg: m, Site: s})
+						}
+					}
+				}
+				for _, p := range ps {
+					note(f, p.Stage, v, p.Msg, p.Site, ing)
+				}
+			}
+		}
+	case "crd":
+		base := advBase(parts[1])
+		if base == nil {
+			cs.Error = "bad adversarial job " + d
+			return cs
+		}
+		cur, path := stringLeaf(deepCopy(base), idx, nil)
+		cs.Kind = path
+		vals := nearMisses(cur, true)
+		cs.Values = len(vals)
+		kind := advKind(base)
+		for _, v := range vals {
+			obj := deepCopy(base)
+			stringLeaf(obj, idx, &v)
+			if !admitted(obj) {
+				continue
+			}
+			var accepting []int
+			for _, f := range flags {
+				cs.Tried++
+				var verr error
+				c := ctl(f)
+				o := deepCopy(obj)
+				if m, s := guard(func() {
+					switch x := o.(type) {
+					case *conf_v1.VirtualServer:
+						verr = c.VSValidator().ValidateVirtualServer(x)
+					case *conf_v1.VirtualServerRoute:
+						verr = c.VSValidator().ValidateVirtualServerRoute(x)
+					case *conf_v1.TransportServer:
+						verr = c.TSValidator().ValidateTransportServer(x)
+					case *conf_v1.Policy:
+						verr = c.ValidatePolicy(x)
+					case *conf_v1.GlobalConfiguration:
+						verr = c.GCValidator().ValidateGlobalConfiguration(x)
+					}
+				}); m != "" {
+					note(f, "validate", v, m, s, obj)
+					continue
+				}
+				if verr == nil {
+					accepting = append(accepting, f)
+				}
+			}
+			for _, f := range pickSettings(accepting, thorough) {
+				cs.AccRuns++
+				var ps []PanicInfo
+				ctx := 0
+				if kind == "TransportServer" || kind == "VirtualServerRoute" {
+					ctx = 2 // a GlobalConfiguration and a VirtualServer that references default/z-vsr
+				}
+				runObject(kind, obj, f, ctx, &ps)
+				for _, p := range ps {
+					note(f, p.Stage, v, p.Msg, p.Site, obj)
+				}
+			}
+		}
+	default:
+		cs.Error = "bad adversarial job " + d
+	}
+	return cs
+}
+
+// pickSettings: the flag settings under which an accepted value goes through store / extend /
+// generate: all accepting settings (thorough), or the one with the most and the one with the
+// fewest flags on (quick; the validators have been run under all sixteen)
+func pickSettings(accepting []int, thorough bool) []int {
+	if thorough || len(accepting) <= 2 {
+		return accepting
+	}
+	lo, hi := accepting[0], accepting[0]
+	for _, f := range accepting {
+		if bits.OnesCount(uint(f)) < bits.OnesCount(uint(lo)) {
+			lo = f
+		}
+		if bits.OnesCount(uint(f)) > bits.OnesCount(uint(hi)) {
+			hi = f
+		}
+	}
+	return []int{lo, hi}
+}
+
+func advKind(o interface{}) string {
+	switch o.(type) {
+	case *conf_v1.VirtualServer:
+		return "VirtualServer"
+	case *conf_v1.VirtualServerRoute:
+		return "VirtualServerRoute"
+	case *conf_v1.TransportServer:
+		return "TransportServer"
+	case *conf_v1.Policy:
+		return "Policy"
+	case *conf_v1.GlobalConfiguration:
+		return "GlobalConfiguration"
+	}
+	return ""
+}
+
+// stringLeaf walks the spec of obj in field order and returns the idx-th string leaf (struct
+// fields, slice elements, map values) and its path; with set != nil it is overwritten.
+func stringLeaf(obj interface{}, idx int, set *string) (string, string) {
+	n := 0
+	var cur, path string
+	var walk func(v reflect.Value, p string) bool
+	walk = func(v reflect.Value, p string) bool {
+		switch v.Kind() {
+		case reflect.Ptr:
+			if v.IsNil() {
+				return false
+			}
+			return walk(v.Elem(), p)
+		case reflect.Struct:
+			t := v.Type()
+			for i := 0; i < t.NumField(); i++ {
+				f := t.Field(i)
+				if f.Name == "TypeMeta" || f.Name == "ObjectMeta" || f.Name == "Status" || f.PkgPath != "" {
+					continue
+				}
+				if walk(v.Field(i), p+"."+strings.Split(f.Tag.Get("json"), ",")[0]) {
+					return true
+				}
+			}
+		case reflect.Slice:
+			for i := 0; i < v.Len(); i++ {
+				if walk(v.Index(i), fmt.Sprintf("%s[%d]", p, i)) {
+					return true
+				}
+			}
+		case reflect.Map:
+			if v.Type().Elem().Kind() != reflect.String {
+				return false
+			}
+			keys := v.MapKeys()
+			sort.Slice(keys, func(a, b int) bool { return keys[a].String() < keys[b].String() })
+			for _, k := range keys {
+				if n == idx {
+					cur, path = v.MapIndex(k).String(), p+"{"+k.String()+"}"
+					if set != nil {
+						v.SetMapIndex(k, reflect.ValueOf(*set).Convert(v.Type().Elem()))
+					}
+					return true
+				}
+				n++
+			}
+		case reflect.String:
+			if n == idx {
+				cur, path = v.String(), p
+				if set != nil {
+					v.SetString(*set)
+				}
+				return true
+			}
+			n++
+		}
+		return false
+	}
+	rv := reflect.ValueOf(obj).Elem().FieldByName("Spec")
+	if !walk(rv, "spec") {
+		return "", ""
+	}
+	return cur, path
+}
+
+func countStringLeaves(obj interface{}) int {
+	n := 0
+	for {
+		if _, p := stringLeaf(obj, n, nil); p == "" {
+			return n
+		}
+		n++
+	}
+}
+
+var advBaseNames = []string{"vs-oss", "vs-plus", "vsr-plus", "ts", "ts-passthrough", "pol-access", "pol-rate", "pol-jwt", "pol-jwks", "pol-basic",
+	"pol-ingressmtls", "pol-egressmtls", "pol-oidc", "pol-apikey", "pol-waf", "gc"}
+
+func richUpstream(plus bool) conf_v1.Upstream {
+	u := conf_v1.Upstream{Name: "u", Service: "svc-a", Port: 80, LBMethod: "round_robin", FailTimeout: "10s", ProxyConnectTimeout: "30s",
+		ProxyReadTimeout: "31s", ProxySendTimeout: "32s", ProxyNextUpstream: "error timeout", ProxyNextUpstreamTimeout: "5s", ClientMaxBodySize: "2m",
+		ProxyBufferSize: "8k", ProxyBuffers: &conf_v1.UpstreamBuffers{Number: 4, Size: "8k"}, Subselector: map[string]string{"app": "a"}, Type: "http",
+		Backup: "svc-ext", BackupPort: u16(80), MaxFails: ip(1), MaxConns: ip(10), Keepalive: ip(8)}
+	if plus {
+		u.HealthCheck = &conf_v1.HealthCheck{Enable: true, Path: "/healthz", Interval: "5s", Jitter: "1s", Fails: 1, Passes: 1, ConnectTimeout: "3s",
+			ReadTimeout: "4s", SendTimeout: "5s", Headers: []conf_v1.Header{{Name: "Host", Value: "h.example.com"}}, StatusMatch: "! 500", KeepaliveTime: "60s"}
+		u.SlowStart = "10s"
+		u.Queue = &conf_v1.UpstreamQueue{Size: 10, Timeout: "5s"}
+		u.SessionCookie = &conf_v1.SessionCookie{Enable: true, Name: "srv", Path: "/", Expires: "1h", Domain: ".example.com", SameSite: "strict"}
+	}
+	return u
+}
+
+func richRoutes(prefix string, withRefs bool) []conf_v1.Route {
+	proxy := &conf_v1.Action{Proxy: &conf_v1.ActionProxy{Upstream: "u", RewritePath: "/x",
+		RequestHeaders: &conf_v1.ProxyRequestHeaders{Pass: bp(true), Set: []conf_v1.Header{{Name: "X-A", Value: "b ${scheme}"}}},
+		ResponseHeaders: &conf_v1.ProxyResponseHeaders{Hide: []string{"x-hide"}, Pass: []string{"x-pass"}, Ignore: []string{"Expires"},
+			Add: []conf_v1.AddHeader{{Header: conf_v1.Header{Name: "X-B", Value: "c"}, Always: true}}}}}
+	rs := []conf_v1.Route{
+		{Path: prefix + "/r", Action: proxy, ErrorPages: []conf_v1.ErrorPage{
+			{Codes: []int{502}, Return: &conf_v1.ErrorPageReturn{ActionReturn: conf_v1.ActionReturn{Code: 200, Type: "text/plain", Body: "sorry ${upstream_status}",
+				Headers: []conf_v1.Header{{Name: "x-e", Value: "${upstream_status}"}}}}},
+			{Codes: []int{503}, Redirect: &conf_v1.ErrorPageRedirect{ActionRedirect: conf_v1.ActionRedirect{URL: "http://err.example.com/${scheme}", Code: 301}}}}},
+		{Path: prefix + "/s", Splits: []conf_v1.Split{{Weight: 50, Action: &conf_v1.Action{Pass: "u"}},
+			{Weight: 50, Action: &conf_v1.Action{Return: &conf_v1.ActionReturn{Code: 200, Type: "application/json", Body: "{\\\"a\\\": \\\"${request_uri}\\\"}"}}}}},
+		{Path: prefix + "/m", Matches: []conf_v1.Match{{Conditions: []conf_v1.Condition{{Header: "x-version", Value: "v2"}, {Cookie: "c", Value: "1"},
+			{Argument: "a", Value: "!x"}, {Variable: "$request_method", Value: "GET"}}, Action: &conf_v1.Action{Pass: "u"}}},
+			Action: &conf_v1.Action{Redirect: &conf_v1.ActionRedirect{URL: "http://www.example.com${request_uri}", Code: 302}}},
+	}
+	if withRefs {
+		rs = append(rs, conf_v1.Route{Path: "/sub", Route: "default/z-vsr"})
+	}
+	return rs
+}
+
+func advBase(name string) interface{} {
+	pol := func(f func(*conf_v1.PolicySpec)) *conf_v1.Policy {
+		p := &conf_v1.Policy{ObjectMeta: meta("z-pol", 9), Spec: conf_v1.PolicySpec{IngressClass: "nginx"}}
+		f(&p.Spec)
+		return p
+	}
+	switch name {
+	case "vs-oss", "vs-plus":
+		plus := name == "vs-plus"
+		vs := &conf_v1.VirtualServer{ObjectMeta: meta("z-vs", 9), Spec: conf_v1.VirtualServerSpec{IngressClass: "nginx", Host: host1,
+			TLS:       &conf_v1.TLS{Secret: "tls-secret", Redirect: &conf_v1.TLSRedirect{Enable: true, Code: ip(301), BasedOn: "scheme"}},
+			Upstreams: []conf_v1.Upstream{richUpstream(plus)}, Routes: richRoutes("", true),
+			Policies: []conf_v1.PolicyReference{{Name: "z-pol", Namespace: "default"}}}}
+		if plus {
+			vs.Spec.ServerSnippets, vs.Spec.HTTPSnippets = "add_header X-S s;", "# http"
+			vs.Spec.Routes[0].LocationSnippets = "add_header X-L l;"
+			vs.Spec.Dos = "default/dos"
+			vs.Spec.TLS.CertManager = &conf_v1.CertManager{ClusterIssuer: "issuer", CommonName: "h1.example.com", Duration: "2160h", RenewBefore: "360h", Usages: "digital signature"}
+			vs.Spec.ExternalDNS = conf_v1.ExternalDNS{Enable: true, RecordType: "A", RecordTTL: 60, Labels: map[string]string{"l": "v"},
+				ProviderSpecific: conf_v1.ProviderSpecific{{Name: "n", Value: "v"}}}
+			vs.Spec.Listener = &conf_v1.VirtualServerListener{HTTP: "http-l", HTTPS: "https-l"}
+		}
+		return vs
+	case "vsr-plus":
+		return &conf_v1.VirtualServerRoute{ObjectMeta: meta("z-vsr", 9), Spec: conf_v1.VirtualServerRouteSpec{IngressClass: "nginx", Host: "vs.example.com",
+			Upstreams: []conf_v1.Upstream{richUpstream(true)}, Subroutes: richRoutes("/sub", false)}}
+	case "ts", "ts-passthrough":
+		ts := &conf_v1.TransportServer{ObjectMeta: meta("z-ts", 9), Spec: conf_v1.TransportServerSpec{IngressClass: "nginx",
+			Listener: conf_v1.TransportServerListener{Name: "tcp-l", Protocol: "TCP"},
+			Upstreams: []conf_v1.TransportServerUpstream{{Name: "u", Service: "svc-a", Port: 80, FailTimeout: "10s", MaxFails: ip(1), MaxConns: ip(2),
+				LoadBalancingMethod: "least_conn", Backup: "svc-ext", BackupPort: u16(80),
+				HealthCheck: &conf_v1.TransportServerHealthCheck{Enabled: true, Timeout: "3s", Jitter: "1s", Interval: "5s", Port: 80, Fails: 1, Passes: 1,
+					Match: &conf_v1.TransportServerMatch{Send: "ping\\x0a", Expect: "~* pong"}}}},
+			UpstreamParameters: &conf_v1.UpstreamParameters{ConnectTimeout: "5s", NextUpstream: true, NextUpstreamTimeout: "5s", NextUpstreamTries: 2},
+			SessionParameters:  &conf_v1.SessionParameters{Timeout: "1m"},
+			Action:             &conf_v1.TransportServerAction{Pass: "u"},
+			ServerSnippets:     "# s", StreamSnippets: "# t", Host: host2, TLS: &conf_v1.TransportServerTLS{Secret: "tls-secret"}}}
+		if name == "ts-passthrough" {
+			ts.Spec.Listener = conf_v1.TransportServerListener{Name: conf_v1.TLSPassthroughListenerName, Protocol: conf_v1.TLSPassthroughListenerProtocol}
+			ts.Spec.TLS = nil
+			ts.Spec.Upstreams[0].LoadBalancingMethod = "hash ${remote_addr} consistent"
+			ts.Spec.Upstreams[0].Backup, ts.Spec.Upstreams[0].BackupPort = "", nil
+		}
+		return ts
+	case "pol-access":
+		return pol(func(s *conf_v1.PolicySpec) {
+			s.AccessControl = &conf_v1.AccessControl{Allow: []string{"10.0.0.0/8", "127.0.0.1", "fd00::/8"}}
+		})
+	case "pol-rate":
+		return pol(func(s *conf_v1.PolicySpec) {
+			s.RateLimit = &conf_v1.RateLimit{Rate: "10r/s", Key: "${binary_remote_addr}", ZoneSize: "10M", Delay: ip(1), Burst: ip(2), DryRun: bp(false),
+				LogLevel: "error", RejectCode: ip(503), Condition: &conf_v1.RateLimitCondition{JWT: &conf_v1.JWTCondition{Claim: "user.tier", Match: "gold"}}}
+		})
+	case "pol-jwt":
+		return pol(func(s *conf_v1.PolicySpec) {
+			s.JWTAuth = &conf_v1.JWTAuth{Realm: "realm", Secret: "jwk-secret", Token: "$http_token"}
+		})
+	case "pol-jwks":
+		return pol(func(s *conf_v1.PolicySpec) {
+			s.JWTAuth = &conf_v1.JWTAuth{Realm: "realm", JwksURI: "https://idp.example.com:8443/jwks?x=1", KeyCache: "1h", Token: "$cookie_t"}
+		})
+	case "pol-basic":
+		return pol(func(s *conf_v1.PolicySpec) {
+			s.BasicAuth = &conf_v1.BasicAuth{Realm: "realm", Secret: "htpasswd-secret"}
+		})
+	case "pol-ingressmtls":
+		return pol(func(s *conf_v1.PolicySpec) {
+			s.IngressMTLS = &conf_v1.IngressMTLS{ClientCertSecret: "ca-secret", CrlFileName: "crl.pem", VerifyClient: "optional", VerifyDepth: ip(1)}
+		})
+	case "pol-egressmtls":
+		return pol(func(s *conf_v1.PolicySpec) {
+			s.EgressMTLS = &conf_v1.EgressMTLS{TLSSecret: "tls-secret", VerifyServer: true, VerifyDepth: ip(2), Protocols: "TLSv1.2 TLSv1.3", SessionReuse: bp(true),
+				Ciphers: "HIGH:!aNULL", TrustedCertSecret: "ca-secret", ServerName: true, SSLName: "srv.example.com"}
+		})
+	case "pol-oidc":
+		return pol(func(s *conf_v1.PolicySpec) {
+			s.OIDC = &conf_v1.OIDC{AuthEndpoint: "https://idp.example.com/auth", TokenEndpoint: "https://idp.example.com/token", JWKSURI: "https://idp.example.com/jwks",
+				ClientID: "client", ClientSecret: "oidc-secret", Scope: "openid+profile", RedirectURI: "/_codexch", EndSessionEndpoint: "https://idp.example.com/logout",
+				PostLogoutRedirectURI: "/_logout", ZoneSyncLeeway: ip(10), AuthExtraArgs: []string{"a=b", "c=d"}, AccessTokenEnable: true}
+		})
+	case "pol-apikey":
+		return pol(func(s *conf_v1.PolicySpec) {
+			s.APIKey = &conf_v1.APIKey{SuppliedIn: &conf_v1.SuppliedIn{Header: []string{"X-API-Key"}, Query: []string{"apikey"}}, ClientSecret: "apikey-secret"}
+		})
+	case "pol-waf":
+		return pol(func(s *conf_v1.PolicySpec) {
+			s.WAF = &conf_v1.WAF{Enable: true, ApPolicy: "default/dataguard", SecurityLog: &conf_v1.SecurityLog{Enable: true, ApLogConf: "default/logconf", LogDest: "syslog:server=127.0.0.1:514"},
+				SecurityLogs: []*conf_v1.SecurityLog{{Enable: true, ApLogConf: "default/logconf", LogDest: "stderr"}, {Enable: true, ApLogConf: "logconf2", LogDest: "/var/log/ap.log"},
+					{Enable: true, LogDest: "syslog:server=syslog.example.com:514"}}}
+		})
+	case "gc":
+		g := gcObject(gcListeners())
+		g.Spec.Listeners[0].IPv4, g.Spec.Listeners[0].IPv6 = "127.0.0.1", "::1"
+		return g
+	}
+	return nil
 }
